@@ -38,6 +38,10 @@ FIXED_OPS = [
     'x = split(x, "a")', 'x = map(x, c => c)', 'x = enumerate(x)', 'x = sorted(x)', 'x = match_all(x, "")', 'x = match_all(x, "a")',
     'x = replace(x, "a", "aa")', 'x = x + "a"', 'x = keys(x)', 'x = items(x)', 'x = values(x)', 'x = reversed(x)',
     'del l[0]', 'pop(l)', 'pop(x)', 'remove(d, "0")', 'del d["0"]',
+    'e = []; e += s; x = e', 'e = []; e += x; x = e', 'e = []; e += l; x = e', 'e = []; e = e + l + l; x = e', 'e = [1]; e += s; x = e',
+    'e = []; e += tt; x = e', 'x = tt + tt', 'x = reversed(tt + tt)', 'x = sorted(tt + tt)', 'x = enumerate(tt + tt)', 'x = map(tt + tt, v => v)',
+    'x = tt + tt; x = reversed(x)', 'y = tt; y += tt; x = sorted(y)', 'x = items(d)[0] + tt + tt; x = reversed(x)', 'x = [tt + tt]; x = reversed(x[0])',
+    'x = x + x; x = reversed(x)', 'x = filter(map(tt + tt, v => v), v => True)',
 ]
 ARG_TEMPLATES = ['(l)', '(d)', '(s)', '(l, l)', '(s, "a")', '(s, "")', '(l, v => v)', '(l, v => l)', '(d, (k, v) => l)',
                  '(l, (a, b) => a)', '(s, c => c)', '(l, 1)', '(l, 0, 1)', '(d, "0")', '(d, "new", l)', '(l, "")', '(s, "a", "aa")',
@@ -47,7 +51,7 @@ AT_CAP_MUTATIONS = {'push(l, 1)': 'l', 'insert(l, 0, 1)': 'l', 'l[0] = 1': 'l', 
 
 
 def fresh(n):
-    return {'l': [0] * n, 'd': {str(i): 0 for i in range(n)}, 's': 'a' * n, 't': (1, 2)}
+    return {'l': [0] * n, 'd': {str(i): 0 for i in range(n)}, 's': 'a' * n, 't': (1, 2), 'tt': (0,) * n}
 
 
 _parser = [None]
@@ -181,7 +185,7 @@ def walk_lengths(v, bound, found, depth=0):
                 if isinstance(e, (list, dict, tuple)):
                     walk_lengths(e, bound, found, depth + 1)
     elif isinstance(v, tuple) and depth < 3:
-        for e in v:
+        for e in (v if len(v) <= 64 else v[:4] + v[-4:]):
             walk_lengths(e, bound, found, depth + 1)
 
 
